@@ -373,6 +373,9 @@ func (d *Data) ingestBlock(ctx *datastore.VersionedCtx, chunkPt dvid.ChunkPoint3
 		return
 	}
 
+	d.Lock()
+	defer d.Unlock()
+
 	// Get the synaptic elements for this block
 	tk := NewBlockTKey(chunkPt)
 	elems, err := getElements(ctx, tk)
@@ -453,6 +456,9 @@ func (d *Data) ingestBlock(ctx *datastore.VersionedCtx, chunkPt dvid.ChunkPoint3
 
 // If a block of labels is mutated, adjust any label that was either removed or added.
 func (d *Data) mutateBlock(ctx *datastore.VersionedCtx, mutID uint64, chunkPt dvid.ChunkPoint3d, prev, data []byte, batcher storage.KeyValueBatcher) {
+	d.Lock()
+	defer d.Unlock()
+
 	// Get the synaptic elements for this block
 	tk := NewBlockTKey(chunkPt)
 	elems, err := getElements(ctx, tk)
@@ -549,6 +555,9 @@ func (d *Data) mutateBlock(ctx *datastore.VersionedCtx, mutID uint64, chunkPt dv
 }
 
 func (d *Data) mergeLabels(batcher storage.KeyValueBatcher, v dvid.VersionID, op labels.MergeOp) error {
+	d.Lock()
+	defer d.Unlock()
+
 	d.StartUpdate()
 	defer d.StopUpdate()
 
@@ -629,8 +638,8 @@ func (d *Data) mergeLabels(batcher storage.KeyValueBatcher, v dvid.VersionID, op
 }
 
 func (d *Data) cleaveLabels(batcher storage.KeyValueBatcher, v dvid.VersionID, op labels.CleaveOp) error {
-	// d.Lock()
-	// defer d.Unlock()
+	d.Lock()
+	defer d.Unlock()
 	dvid.Infof("Starting cleave sync on instance %q to target %d with resulting label %d using %d cleaved svs\n", d.DataName(), op.Target, op.CleavedLabel, len(op.CleavedSupervoxels))
 	timedLog := dvid.NewTimeLog()
 
@@ -735,8 +744,8 @@ func (d *Data) cleaveLabels(batcher storage.KeyValueBatcher, v dvid.VersionID, o
 }
 
 func (d *Data) splitLabelsCoarse(batcher storage.KeyValueBatcher, v dvid.VersionID, op labels.DeltaSplit) error {
-	// d.Lock()
-	// defer d.Unlock()
+	d.Lock()
+	defer d.Unlock()
 
 	d.StartUpdate()
 	defer d.StopUpdate()
@@ -848,8 +857,8 @@ func (d *Data) splitLabelsCoarse(batcher storage.KeyValueBatcher, v dvid.Version
 }
 
 func (d *Data) splitLabels(batcher storage.KeyValueBatcher, v dvid.VersionID, op labels.DeltaSplit) error {
-	// d.Lock()
-	// defer d.Unlock()
+	d.Lock()
+	defer d.Unlock()
 
 	d.StartUpdate()
 	defer d.StopUpdate()
